@@ -124,7 +124,7 @@ var generalAssumptions = []string{
 	"A-STR: strings are an uninterpreted sort with length/byte-at/substring/concat axioms; < on strings is an arbitrary strict total order",
 	"A-MEM: Go memory safety: no forged or dangling pointers; a reference read from memory is allocated; distinct pointee types do not alias",
 	"A-NORETAIN: a pointer to a local variable passed to a repository function is treated as not retained only after a syntactic check of the callee (stores / returns / interface conversions of the parameter, depth 4); external callees are trusted not to retain it",
-	"A-EXTPURE: a library function WITHOUT contract that receives no reference (only numbers, strings, time values, boxed values of these) is given an unknown result and no effect on repository state; functions of os, io, bufio, fmt.Print*/Fprint*, log.Fatal*/Panic*, runtime, reflect, sync, encoding/csv are excluded (they havoc everything). Each use is listed under trusted.",
+	"A-EXTPURE: a library function WITHOUT contract that receives no reference (only numbers, strings, time values, boxed values of these) is given an unknown result and no effect on repository state; functions of os, io, bufio, fmt.Print*/Fprint*, log.Fatal*/Panic*, runtime, reflect, sync, encoding/csv, math/rand, crypto/rand and the clock (time.Now/Since/Until/Sleep/After/...) are excluded (they havoc everything). Each use is listed under trusted.",
 	"A-SEQ: single goroutine; no concurrent mutation of the verified state",
 }
 
